@@ -14,6 +14,7 @@ import (
 	"sort"
 	"strconv"
 	"strings"
+	"sync"
 	"sync/atomic"
 	"time"
 )
@@ -154,6 +155,92 @@ func main() {
 			curStart.Store(0)
 			fmt.Fprintf(out, "%s\t%s\t%s\n", r.Impl, r.Direct, r.Class)
 			i++
+		}
+	case "pareval":
+		// Re-entrancy of the code under test: the cases (functions of their input when the property
+		// holds) are evaluated once in sequence and then again from several goroutines at once, in
+		// different orders; a case whose concurrent outcome differs from its sequential one is
+		// printed as "<index>\t<impl>\t<direct>".  Scratch state shared between calls (a package-level
+		// buffer, a memo, a pooled object handed out twice) shows here and nowhere else.
+		sc := bufio.NewScanner(os.Stdin)
+		sc.Buffer(make([]byte, 1<<20), 1<<26)
+		var cs []string
+		for sc.Scan() {
+			cs = append(cs, sc.Text())
+		}
+		seq := make([]Result, len(cs))
+		for i, c := range cs {
+			seq[i] = evalOne(p, c)
+		}
+		const G = 8
+		var mu sync.Mutex
+		diff := map[int]Result{}
+		var wg sync.WaitGroup
+		for g := 0; g < G; g++ {
+			wg.Add(1)
+			go func(g int) {
+				defer wg.Done()
+				for round := 0; round < 3; round++ {
+					for k := range cs {
+						i := (k + g*len(cs)/G) % len(cs)
+						if g%2 == 1 {
+							i = len(cs) - 1 - i
+						}
+						r := evalOne(p, cs[i])
+						if r.Impl != seq[i].Impl || r.Direct != seq[i].Direct {
+							mu.Lock()
+							if _, seen := diff[i]; !seen {
+								diff[i] = r
+							}
+							mu.Unlock()
+						}
+					}
+				}
+			}(g)
+		}
+		wg.Wait()
+		// second phase: a small set of cases — up to three per shape (operation and field lengths) —
+		// is evaluated over and over by all goroutines for a second and a half, so that the same
+		// function runs on different inputs at the same moment many thousand times
+		shape := func(c string) string {
+			f := strings.Split(c, " ")
+			k := f[0]
+			for _, x := range f[1:] {
+				k += fmt.Sprintf(" %d", min(len(x), 40))
+			}
+			return k
+		}
+		perShape := map[string]int{}
+		var hot []int
+		for i, c := range cs {
+			if k := shape(c); perShape[k] < 3 && len(hot) < 96 && seq[i].Direct == "ok" {
+				perShape[k]++
+				hot = append(hot, i)
+			}
+		}
+		stop := time.Now().Add(1500 * time.Millisecond)
+		for g := 0; g < G && len(hot) > 1; g++ {
+			wg.Add(1)
+			go func(g int) {
+				defer wg.Done()
+				for n := 0; time.Now().Before(stop); n++ {
+					i := hot[(n*(2*g+1)+g)%len(hot)]
+					r := evalOne(p, cs[i])
+					if r.Impl != seq[i].Impl || r.Direct != seq[i].Direct {
+						mu.Lock()
+						if _, seen := diff[i]; !seen {
+							diff[i] = r
+						}
+						mu.Unlock()
+					}
+				}
+			}(g)
+		}
+		wg.Wait()
+		for i := range cs {
+			if r, ok := diff[i]; ok {
+				fmt.Fprintf(out, "%d\t%s\t%s\n", i, r.Impl, r.Direct)
+			}
 		}
 	case "cands":
 		sc := bufio.NewScanner(os.Stdin)
